@@ -104,14 +104,14 @@ impl QModel {
             invalid = s(&["", "!"]);
         } else {
             keys = match tier {
-                Tier::Quick => s(&["a", "A", "ab", "Ab", "aB", "a_", "A_", "b", "B", "b-1", "B-1"]),
-                Tier::Thorough => s(&["a", "A", "ab", "Ab", "aB", "a_", "A_", "b", "B", "b-1", "B-1", "b.", "B."]),
+                Tier::Quick => s(&["a", "A", "ab", "Ab", "aB", "a_", "A_", "k", "K", "b-1", "B-1"]),
+                Tier::Thorough => s(&["a", "A", "ab", "Ab", "aB", "a_", "A_", "k", "K", "b-1", "B-1", "b.", "B."]),
             };
             values = match tier {
                 Tier::Quick => s(&["", "x", "Y"]),
                 Tier::Thorough => s(&["", "x", "Y", "é&="]),
             };
-            invalid = s(&["", "!", "a b", "é", "a=b", "\u{212A}", "\u{FF41}", "a%41"]);
+            invalid = s(&["", "!", "a b", "é", "a=b", "\u{212A}", "\u{FF41}", "a%41", "a\u{212A}", "\u{212A}-1"]);
         }
         let mut acts = Vec::new();
         let all_keys: Vec<String> = keys.iter().chain(invalid.iter()).cloned().collect();
